@@ -33,6 +33,9 @@ CLAIMS = {
  'C14': dict(cat='proof', ref='DESIGN.md 7 (C14), 12',
    text="Kernel claim, the Variant tagged union that carries every property value: each set(T) stores the value under the right type tag and releases a previously held string exactly when one was held; each get(T&) returns the stored value and rejects every other type with invalid_argument leaving the output untouched; assign_variant_from (copy constructor / operator= / swap path) copies tag and payload and never shares the string; supports_type is exactly the eight supported types; allocation failure throws without changing the Variant.",
    note=NOTE_COMMON + "Kernel only: PropertyHDF5's dataset (resize/write/read), units, uncertainty and reopen are libhdf5 and not covered. The anonymous union is modelled as separate members (CBMC cost); string contents are inspected only for lengths < 16 (that job is labelled bounded and not counted); set(const char*) (strlen) is an assumed contract; malloc may fail and return NULL."),
+ 'C18': dict(cat='proof', ref='DESIGN.md 7 (C18), 12',
+   text="Kernel claim: (1) lemma over the prefix table extracted from util.cpp on every run: exactly the 20 SI prefixes, each mapped to the literal 10^exponent; (2) getSIScaling's factor selection, by complete case split over power -3..3 and presence of origin/destination prefix: not scalable is rejected, equal prefixes give exactly 1, otherwise the factor is (origin factor / destination factor) raised to the power, with the same operations as the code.",
+   note=NOTE_COMMON + "KERNEL ONLY: strings abstracted to ids; splitUnit / isScalable / isSIUnit (boost::regex grammar) are ghost inputs, so the grammar is not covered; pow for integer exponents is repeated multiplication (libm rounding not modelled); the three cases 'negative power with both prefixes present' do not terminate in the solver and are not claimed; reciprocity/composition in double arithmetic and retrieval invariance under rescaling are not covered."),
  'C16': dict(cat='proof', ref='DESIGN.md 7 (C16), 12',
    text="Kernel claim: per function under contract, CBMC's built-in checks (bounds, pointer validity, pointer arithmetic, signed overflow, float-to-integer conversion, division by zero, shifts) are discharged under type-invariant-only preconditions, i.e. for every argument a C++ caller can form the function returns or raises. Covers the position-to-index functions for all doubles incl. NaN/inf/1e300 and any tick vector.",
    note=NOTE_COMMON + "Kernel only: absence of UB for sequences of API calls, handle lifetimes after delete/close and libhdf5 internals are not covered."),
@@ -49,8 +52,8 @@ NA = {
  'C15': "cell round trip is HDF5 compound-type conversion inside H5Dread/H5Dwrite",
  'C20': "breadth-first search over std::list/std::function on HDF5-backed handles; not extractable without writing a model",
 }
-PENDING = {k: "check not built yet (planned kernel claim, DESIGN.md section 7)" for k in
-           ['C18', 'C19']}
+PENDING = {k: "kernel planned in DESIGN.md section 7 (rule predicates of checks.cpp) was not built in the time available: iterators over std::vector<Dimension>, auto and handle downcasts are outside the extraction idiom map as it stands; the rule tables (lambdas/templates) are out of reach regardless" for k in
+           ['C19']}
 def main():
     extra = json.load(open(os.path.join(ROOT, 'vlib', 'claims_extra.json'))) if os.path.exists(os.path.join(ROOT, 'vlib', 'claims_extra.json')) else {}
     checks = []
